@@ -124,44 +124,48 @@ def main(prop, tier, seed, replay):
             print("VIOLATION property=%s replay=%s" % (prop, replay))
             return 1
         return 0
-    out = os.path.join(tmpd, "result.json")
-    inflight = os.path.join(tmpd, "inflight.json")
     saved = sorted(glob.glob(os.path.join(saved_dir, "*.json")))
-    cmd = [PYEXE_RUN, script, "--tier", tier, "--seed", str(seed), "--out", out, "--replay-dir", rdir, "--inflight", inflight, "--known", ",".join(knkeys)]
-    for s in saved:
-        cmd += ["--saved", s]
+    nshards = int(spec.get("shards", 1))
     violations = []
     known_hits = {}
     errors = []
-    # the child may die on a sanitizer report; rerun (bounded) excluding nothing - a crash is a violation outright
-    p = subprocess.run(cmd, env=env, stdout=subprocess.PIPE, stderr=subprocess.PIPE, text=True)
-    sys.stderr.write(p.stderr[-30000:])
-    res = None
-    if os.path.exists(out):
-        try:
-            res = json.load(open(out))
-        except ValueError:
-            res = None
-    if p.returncode not in (0, 1) or res is None:
-        # abort / sanitizer report / interpreter crash
-        rp = os.path.join(rdir, "crash-inflight.json")
-        tail = (p.stderr or "")[-4000:]
-        summ = ""
-        for line in tail.splitlines():
-            if "ERROR: AddressSanitizer" in line or "SUMMARY" in line or "terminate called" in line or "Aborted" in line or "what():" in line:
-                summ += line.strip() + " | "
-        if os.path.exists(inflight):
-            shutil.copy(inflight, rp)
-        else:
-            with open(rp, "w") as f:
-                json.dump(dict(note="child died before the first case", rc=p.returncode), f)
-        with open(rp + ".log", "w") as f:
-            f.write(tail)
-        if p.returncode == 2 and res is None and "HARNESS-ERROR" in (p.stdout or ""):
-            errors.append("harness error in child: " + p.stdout[-800:])
-        else:
+    procs = []
+    for si in range(nshards):
+        out = os.path.join(tmpd, "result%d.json" % si)
+        inflight = os.path.join(tmpd, "inflight%d.json" % si)
+        cmd = [PYEXE_RUN, script, "--tier", tier, "--seed", str(seed), "--out", out, "--replay-dir", rdir, "--inflight", inflight, "--known", ",".join(knkeys), "--shard", "%d/%d" % (si, nshards)]
+        if si == 0:
+            for s_ in saved:
+                cmd += ["--saved", s_]
+        procs.append((subprocess.Popen(cmd, env=env, stdout=subprocess.PIPE, stderr=subprocess.PIPE, text=True), out, inflight, si))
+    results = []
+    for p, out, inflight, si in procs:
+        so, se = p.communicate()
+        sys.stderr.write("".join(l for l in se.splitlines(True) if l.startswith("[")) if p.returncode in (0, 1) else se[-30000:])
+        res = None
+        if os.path.exists(out):
+            try:
+                res = json.load(open(out))
+            except ValueError:
+                res = None
+        if p.returncode not in (0, 1, 2) or res is None:
+            # abort / sanitizer report / interpreter crash
+            rp = os.path.join(rdir, "crash-inflight%s.json" % ("" if si == 0 else "-%d" % si))
+            tail = (se or "")[-4000:]
+            summ = ""
+            for line in tail.splitlines():
+                if "ERROR: AddressSanitizer" in line or "SUMMARY" in line or "terminate called" in line or "Aborted" in line or "what():" in line:
+                    summ += line.strip() + " | "
+            if os.path.exists(inflight):
+                shutil.copy(inflight, rp)
+            else:
+                with open(rp, "w") as f:
+                    json.dump(dict(note="child died before the first case", rc=p.returncode), f)
+            with open(rp + ".log", "w") as f:
+                f.write(tail)
             violations.append((rp, "child interpreter died (rc=%s) while executing the in-flight program: %s" % (p.returncode, summ or tail[-300:])))
-    if res:
+            continue
+        results.append(res)
         for f in res.get("failures", []):
             if f.get("known"):
                 known_hits[f["key"]] = f["msg"]
@@ -169,6 +173,40 @@ def main(prop, tier, seed, replay):
                 violations.append((f["replay"], "%s: %s" % (f["key"], f["msg"])))
         for e in res.get("harness_errors", []):
             errors.append(e)
+    res = None
+    if results:
+        # merge the shards
+        merged = {}
+        order = []
+        for r_ in results:
+            for sc in r_["coverage"]["subchecks"]:
+                m = merged.get(sc["name"])
+                if m is None:
+                    merged[sc["name"]] = dict(sc)
+                    order.append(sc["name"])
+                else:
+                    for k in ("planned", "evaluations", "nontrivial", "distinct_nontrivial", "excluded_known"):
+                        m[k] = m.get(k, 0) + sc.get(k, 0)
+                    m["wall_s"] = max(m.get("wall_s", 0), sc.get("wall_s", 0))
+                    m["had_fail"] = m.get("had_fail") or sc.get("had_fail")
+                    for lk, lv in sc.get("labels", {}).items():
+                        m["labels"][lk] = m["labels"].get(lk, 0) + lv
+        subs = [merged[n] for n in order]
+        if nshards > 1 and not violations:
+            for m in subs:
+                if m.get("had_fail"):
+                    continue
+                for rl in m.get("required_labels", []):
+                    if m["labels"].get(rl, 0) == 0:
+                        errors.append("group %s never generated required class %r" % (m["name"], rl))
+        samples = []
+        for r_ in results:
+            samples += r_["coverage"].get("samples", [])[:4]
+        c0 = results[0]["coverage"]
+        res = dict(coverage=dict(evaluations=sum(m["evaluations"] for m in subs), distinct_nontrivial=sum(m["distinct_nontrivial"] for m in subs), rule=c0.get("rule", ""),
+                                 samples=samples[:40] or ["(none)"], exhaustive=False, subchecks=subs, shards=nshards,
+                                 replayed_saved_inputs=c0.get("replayed_saved_inputs", 0),
+                                 excluded_known_failures={k: sum(r_["coverage"].get("excluded_known_failures", {}).get(k, 0) for r_ in results) for r_ in results for k in r_["coverage"].get("excluded_known_failures", {})}))
     cov = dict(evaluations=0, distinct_nontrivial=0, rule="", samples=["(no sample: run aborted)"])
     if res:
         cov = res["coverage"]
